@@ -336,6 +336,8 @@ def coq_dstep(h):
         return '(DEqObj %s %s)' % (coq_handle(h['o']), coq_handle(h['j']))
     if k == 'alledit':
         return '(DAllEdit %s)' % coq_edit(h['e'])
+    if k in ('add', 'radd'):
+        return '(%s %s %s)' % ({'add': 'DAdd', 'radd': 'DRadd'}[k], coq_handle(h['o']), coq_bs(h['t']))
     if k in ('slice', 'slicein'):
         return '(%s %s %s %s)' % ({'slice': 'DSlice', 'slicein': 'DSliceIn'}[k], coq_handle(h['o']), coq_gap(h['gap']), coq_ix(h['ix']))
     return {'countall': 'DCountall'}[k]
@@ -1372,7 +1374,7 @@ def _run_store(case):
         obs = None
         notes = []
         try:
-            if k in ('dup', 'edit', 'query', 'eqobj', 'slice', 'slicein') and not 0 <= h['o'] < len(objs):
+            if k in ('dup', 'edit', 'query', 'eqobj', 'slice', 'slicein', 'add', 'radd') and not 0 <= h['o'] < len(objs):
                 raise IndexError('no such object')
             if k == 'dup':
                 src = objs[h['o']]
@@ -1409,6 +1411,16 @@ def _run_store(case):
                     name, args = _edit_call(e)
                     r = getattr(seqs.str, name)(*args)
                     assert r is seqs or (isinstance(r, list) and all(x is y for x, y in zip(r, objs)))
+            elif k in ('add', 'radd'):
+                src = objs[h['o']]
+                before = [x.data for x in objs]
+                r = src + h['t'] if k == 'add' else h['t'] + src
+                if not isinstance(r, BioSeq) or any(r is x for x in objs):
+                    notes.append('+ must give a new BioSeq')
+                if [x.data for x in objs] != before:
+                    notes.append('+ changed a sequence')
+                obs = _seq(r)
+                objs.append(r)
             elif k in ('slice', 'slicein'):
                 src = objs[h['o']]
                 before = [x.data for x in objs]
@@ -1459,8 +1471,14 @@ def _spec_store(case, got):
         obs, state, extra = g
         where = 'step %d (%s): ' % (n, json.dumps(h))
         exp = None
-        if k in ('dup', 'edit', 'query', 'eqobj', 'slice', 'slicein') and not 0 <= h['o'] < len(cur) or k == 'eqobj' and not 0 <= h['j'] < len(cur):
+        if k in ('dup', 'edit', 'query', 'eqobj', 'slice', 'slicein', 'add', 'radd') and not 0 <= h['o'] < len(cur) or k == 'eqobj' and not 0 <= h['j'] < len(cur):
             exp = {'e': 'IndexError'}
+        elif k in ('add', 'radd'):
+            # str concatenation of the object's own residues, upper-cased as a whole by the constructor
+            joined = cur[h['o']] + h['t'] if k == 'add' else h['t'] + cur[h['o']]
+            exp = [joined.upper(), ids[h['o']]]
+            cur = cur + [joined.upper()]
+            ids = ids + [ids[h['o']]]
         elif k in ('slice', 'slicein'):
             # the subscript of the object's OWN residue string (lower case included), upper-cased by the constructor
             src = cur[h['o']]
@@ -1748,6 +1766,8 @@ def _plain_store(case):
             out.append('o[%d] == o[%d]' % (h['o'], h['j']))
         elif k == 'countall':
             out.append('BioBasket(o).countall()')
+        elif k in ('add', 'radd'):
+            out.append('o.append(o[%d] + %r)' % (h['o'], h['t']) if k == 'add' else 'o.append(%r + o[%d])' % (h['t'], h['o']))
         elif k in ('slice', 'slicein'):
             kw = ', '.join((['inplace=True'] if k == 'slicein' else []) + ([] if h['gap'] is None else ['gap=%r' % h['gap']]))
             out.append('o.append(o[%d]%s[%s])' % (h['o'], '.sl(%s)' % kw if kw else '', _ixs(h['ix'])))
@@ -2278,6 +2298,9 @@ def _gen_store(rng):
                 steps.append({'k': rng.choice(['slice', 'slice', 'slice', 'slicein']), 'o': handle(), 'gap': gap, 'ix': _rix(rng, n),
                               'sl': rng.random() < 0.3})
                 nobj += 1
+            elif r < 0.70 and nobj < 7:
+                steps.append({'k': rng.choice(['add', 'radd']), 'o': handle(), 't': _rs(rng, rng.choice([0, 1, 2, 4]), MIXED)})
+                nobj += 1
             elif r < 0.9:
                 steps.append({'k': 'query', 'o': handle(), 'q': _rquery(rng, pool, n)})
             elif r < 0.96:
@@ -2329,7 +2352,7 @@ def _directed_slices():
         for ix in ({'a': 1, 'b': 6, 'c': None}, {'a': None, 'b': None, 'c': -1}, {'a': None, 'b': None, 'c': 2}, {'a': 5, 'b': 0, 'c': -2},
                    {'a': None, 'b': -100, 'c': -1}, 2, -1, {'a': -3, 'b': None, 'c': None}):
             steps.append({'k': 'slice', 'o': 0, 'gap': gap, 'ix': ix, 'sl': gap is None})
-        steps += [{'k': 'edit', 'o': 1, 'e': {'e': 'lower'}}, {'k': 'eqobj', 'o': 0, 'j': 1},
+        steps += [{'k': 'add', 'o': 0, 't': 'ac-N'}, {'k': 'radd', 'o': 0, 't': 'tg'}, {'k': 'edit', 'o': 1, 'e': {'e': 'lower'}}, {'k': 'eqobj', 'o': 0, 'j': 1},
                   {'k': 'slicein', 'o': 0, 'gap': gap, 'ix': {'a': 2, 'b': None, 'c': None}}, {'k': 'query', 'o': 0, 'q': {'q': 'islower'}},
                   {'k': 'countall'}]
         out.append({'op': 'store', 'ss': ['ACGTTGCA'], 'steps': steps, 'probes': ['g', 'N'], 'battery': True, 'sweep': False})
@@ -2625,7 +2648,7 @@ def _raw(BioSeq, data):
     return s
 
 
-LEVEL_TEXT = ('Machine-checked Coq theorems (69, all closed under the global context), for every list/str and every integer or None bound: '
+LEVEL_TEXT = ('Machine-checked Coq theorems (70, all closed under the global context), for every list/str and every integer or None bound: '
               'CPython slice normalisation (PySlice_AdjustIndices) yields firstn/skipn of the clamped bounds for contiguous slices, the '
               'slice-length formula and the element law r[k] = s[start + k*step] for every step, s[::-1] = rev s, s[:k] + s[k:] = s, the '
               'negative-index law; BioSeq indexing/slicing, len, +, +=, right + equal the str operation on the residue string; == against any '
@@ -2665,7 +2688,8 @@ LEVEL_TEXT = ('Machine-checked Coq theorems (69, all closed under the global con
               'gap_step_refuted: it does NOT survive in general - witnesses "A-CG".sl(gap="-")[::2] = "AC" (degapped "AG") and, with no '
               'gap at all, "ACG".sl(gap="-")[:-100:-1] = "GC" ("ACG"[:-100:-1] = "GCA"); gap_free_positive_step: for a sequence '
               'without gap characters and every step > 0 the gap-aware subscript IS the plain one; slice_lower_is_slice_of_upper: '
-              'subscripts commute with upper(), so seq[ix] of a sequence holding lower case = BioSeq(same residues)[ix]. '
+              'subscripts commute with upper(), so seq[ix] of a sequence holding lower case = BioSeq(same residues)[ix]; store_concat: '
+              'obj + t and t + obj as object-store steps (new object, upper-cased as a whole, lower case of obj included). '
               'The model is tied to sugar by '
               'differential testing (exhaustive box over {A,C,-}^<=5 x {None,-7..7}^3 in the thorough tier, random cases, 600 multi-step '
               'histories on shared objects and 270 object-store histories with duplicates in the quick tier) and the .str methods are '
